@@ -94,6 +94,14 @@ def ival(crate, t, env=None, depth=0):
                 a = ival(crate, t[2][0], env, depth + 1)
                 if a:
                     return (a[0] // DUR_AS[name], a[1] // DUR_AS[name])
+        if t[1] == "std::time::Duration::subsec_nanos":
+            return (0, 999999999)
+        if t[1] == "std::time::Duration::subsec_micros":
+            return (0, 999999)
+        if t[1] == "std::time::Duration::subsec_millis":
+            return (0, 999)
+        if name in ("from", "into") and t[1].split("::")[0] in ("std", "core") and len(t[2]) == 1 and "convert" in t[1]:
+            return ival(crate, t[2][0], env, depth + 1)      # lossless integer widening
         if t[1] in ("std::cmp::min", "std::cmp::Ord::min") and len(t[2]) == 2:
             a = ival(crate, t[2][0], env, depth + 1)
             b = ival(crate, t[2][1], env, depth + 1)
